@@ -193,6 +193,7 @@ type Ctx struct {
 	Replaying bool
 	cur       atomicCase
 	outFile   string
+	curFile   *os.File
 }
 
 type atomicCase struct {
@@ -210,6 +211,12 @@ func (c *Ctx) Current(cs Case) {
 	c.cur.seq++
 	c.cur.set = true
 	c.cur.mu.Unlock()
+	if c.curFile != nil {
+		b, _ := json.Marshal(cs)
+		// length-prefixed record at offset 0: survives a fatal error of the process (unbuffered write)
+		rec := append([]byte(fmt.Sprintf("%08d", len(b))), b...)
+		c.curFile.WriteAt(rec, 0)
+	}
 }
 
 // startWatchdog reports a case that makes no progress for `limit` as a violation of class "hang",
@@ -408,6 +415,8 @@ type Check struct {
 	ThoroughCap time.Duration
 	Workers   int // 0 = all cores; 1 = in-process single
 	HangLimit time.Duration // >0: a case making no progress for this long is reported as class "hang"
+	TrackDeath bool         // record the current case in a side file so that a dying worker is attributed to an input
+	WorkerEnv  []string     // extra environment for worker processes
 	Run       func(c *Ctx)
 	// Replay re-runs one case without the explorer.
 	Replay func(c *Ctx, cs Case) *Viol
@@ -550,6 +559,9 @@ func Main(args []string) int {
 		if ch.HangLimit > 0 {
 			c.startWatchdog(ch.HangLimit)
 		}
+		if ch.TrackDeath {
+			c.curFile, _ = os.Create(out + ".cur")
+		}
 		ch.Run(c)
 		b, _ := json.Marshal(&c.P)
 		if err := os.WriteFile(out, b, 0o644); err != nil {
@@ -591,7 +603,7 @@ func Main(args []string) int {
 			go func(i int) {
 				outf := filepath.Join(tmp, fmt.Sprintf("w%d.json", i))
 				cmd := exec.Command(self, id, "-tier", tier, "-worker", fmt.Sprintf("%d/%d", i, n), "-out", outf)
-				cmd.Env = append(os.Environ(), "GOMAXPROCS=2")
+				cmd.Env = append(append(os.Environ(), "GOMAXPROCS=2"), ch.WorkerEnv...)
 				ob, err := cmd.CombinedOutput()
 				ch2 <- res{i, err, string(ob)}
 			}(i)
@@ -600,6 +612,27 @@ func Main(args []string) int {
 		for i := 0; i < n; i++ {
 			r := <-ch2
 			if r.err != nil {
+				if ch.TrackDeath {
+					// attribute the death to the case the worker was executing
+					if b, err := os.ReadFile(filepath.Join(tmp, fmt.Sprintf("w%d.json.cur", r.i))); err == nil && len(b) > 8 {
+						var n int
+						fmt.Sscanf(string(b[:8]), "%d", &n)
+						var cs Case
+						if n > 0 && 8+n <= len(b) && json.Unmarshal(b[8:8+n], &cs) == nil {
+							msg := "worker process died"
+							for _, l := range strings.Split(r.log, "\n") {
+								if strings.HasPrefix(l, "fatal error:") || strings.HasPrefix(l, "runtime:") || strings.Contains(l, "signal:") {
+									msg = l
+									break
+								}
+							}
+							total.NewViolCount["process-death"]++
+							total.NewViols = append(total.NewViols, Viol{Class: "process-death", Detail: msg + " (" + r.err.Error() + ")", Case: cs})
+							total.Capped = true
+							continue
+						}
+					}
+				}
 				fmt.Fprintf(os.Stderr, "worker %d failed: %v\n%s\n", r.i, r.err, tail(r.log, 4000))
 				failed = true
 				continue
